@@ -118,6 +118,49 @@ def same_record_already_there(events) -> bool:
     return False
 
 
+def all_names_literally_there(events) -> bool:
+    """The path has established that EVERY name of the incoming record - CURIE side and URI side, canonical and
+    synonyms - is literally one of the names of ONE other record (``set(r._all_x).issubset(e._all_x)`` /
+    ``all(x in e._all_x for x in r._all_x)`` for both sides): _merge would add nothing and every table already holds
+    every name, so skipping the merge and / or the re-index is the identity."""
+    from ..rules import CURIE_SIDE, URI_SIDE
+
+    def names_of(lst):
+        """(record term, side) of a display [r.canon, *r.synonyms] - or None"""
+        if op(lst) == "call" and lst[1] in (("builtin", "set"), ("builtin", "list"), ("builtin", "frozenset"), ("builtin", "tuple")) and len(lst[2]) == 1:
+            lst = lst[2][0]
+        if op(lst) not in ("list", "tuple", "set"):
+            return None
+        recs, fields = set(), set()
+        for e in lst[1]:
+            x = e[1] if op(e) == "star" else e
+            if op(x) != "attr":
+                return None
+            recs.add(x[1])
+            fields.add(x[2])
+        if len(recs) != 1:
+            return None
+        side = "curie" if fields == set(CURIE_SIDE) else "uri" if fields == set(URI_SIDE) else None
+        return (next(iter(recs)), side) if side else None
+
+    done = set()
+    for g in events:
+        if g.kind != "guard" or g.b is not True:
+            continue
+        for c in subterms(g.a):
+            small = big = None
+            if op(c) == "call" and op(c[1]) == "attr" and c[1][2] == "issubset" and len(c[2]) == 1:
+                small, big = names_of(c[1][1]), names_of(c[2][0])
+            elif op(c) == "call" and c[1] == ("builtin", "all") and len(c[2]) == 1 and op(c[2][0]) == "comp" and len(c[2][0][3]) == 1 and not c[2][0][3][0][2]:
+                comp = c[2][0]
+                v_, src_, _ = comp[3][0]
+                if op(comp[2]) == "cmp" and comp[2][1] == "in" and comp[2][2] == v_:
+                    small, big = names_of(src_), names_of(comp[2][3])
+            if small and big and small[1] == big[1] and is_incoming(small[0]) and not is_incoming(big[0]):
+                done.add(small[1])
+    return done == {"curie", "uri"}
+
+
 def is_incoming(t) -> bool:
     """The record add_record was given, or a normalised copy of it (``record.model_copy(update=...)``) that takes
     its place."""
@@ -267,7 +310,7 @@ def d3(cx: Cx, ob: Ob) -> None:
                     merged = any((ev.kind in ("expr", "bind") and self_call(ev.a if ev.kind == "expr" else ev.b, me, MERGE)) or (ev.kind == "guard" and self_call(ev.a, me, MERGE)) for ev in p.events)
                     raised = p.out is not None and p.out[0] == "raise"
                     got = "raise" if raised else "merge" if merged else "append" if appended else "nothing"
-                    if got == "nothing" and want == "merge" and same_record_already_there(p.events):
+                    if got == "nothing" and want == "merge" and (same_record_already_there(p.events) or all_names_literally_there(p.events)):
                         continue
                     if got == want or (want, got, n >= 2, mg) in seen_bad:
                         continue
@@ -477,6 +520,9 @@ def check_add_record_pairing(cx: Cx, ob: Ob) -> None:
                 ob.site(f"{where(fn, line)} {fn.qualname}", f"{how} -> _index")
                 if not done and normal and how == "merge" and _merge_takes_care(cx, ob, fn, p, me):
                     continue
+                if not done and normal and how == "merge" and all_names_literally_there(p.events):
+                    ob.site(f"{where(fn, line)} {fn.qualname}", "re-index skipped when every name of the incoming record is literally a name of the existing one")
+                    continue
                 if not done and normal and how == "merge":
                     # re-indexing skipped on the strength of a look into the lookup tables themselves ("they already
                     # hold every name of the merged record"): sound if the test covers every table - not a shape
@@ -493,8 +539,8 @@ def check_add_record_pairing(cx: Cx, ob: Ob) -> None:
                         witness=" -> ".join(conds),
                         detail=f"unindexed:{how}",
                     )
-            if top and normal and not changed and same_record_already_there(p.events):
-                ob.site(f"{fn.where} {fn.qualname}", "returns without merging when the incoming record equals the one already held")
+            if top and normal and not changed and (same_record_already_there(p.events) or all_names_literally_there(p.events)):
+                ob.site(f"{fn.where} {fn.qualname}", "returns without merging when the incoming record equals the one already held / brings no name it does not hold")
                 continue
             if top and normal and not changed:
                 conds = [("" if g.b else "not ") + show(g.a)[:60] for g in p.events if g.kind == "guard"]
